@@ -31,7 +31,7 @@ def run(pid, tier, seed):
     vlib.inject(repo, {"vrt": "internal/vrt", "vnet": "vnet"})
     tp = os.path.join(d, "t.trace")
     rc, out, _ = vlib.go_test(repo, "./vnet/", "^TestVerifVNet$", synctest=True, timeout=2400,
-                              env={"VERIF_TRACE": tp, "VERIF_SEED": seed, "VERIF_REPS": 6 if not big else 60,
+                              env={"VERIF_TRACE": tp, "VERIF_SEED": seed, "VERIF_REPS": 9 if not big else 63,
                                    "VERIF_BURST": 20 if not big else 60})
     if rc != 0:
         k = vlib.classify_go_failure(out)
